@@ -48,7 +48,10 @@ def build(case):
         # an unsigned integer rank, 0 = best (lower is better): only Parquet keeps the unsigned dtype
         order = np.argsort(np.argsort(-np.abs(df["f_key"].values)))
         df["f_key"] = order.astype("uint16")
-    if case.get("mixed"):
+    if case.get("mixed") == "balanced":
+        # two about equally good features of opposite direction: the training folds may disagree on the best one
+        df["f2"] = [round(-float(v) + 0.004 * ((i * 37) % 11), 4) for i, v in enumerate(df["f_key"])]
+    elif case.get("mixed"):
         # a second, much weaker feature pointing the other way: higher is better and it accepts a handful of targets
         # (the first ten high targets get values above everything else), while the best single feature is f_key
         hi = [i for i in range(len(df)) if abs(df.loc[i, "f_key"]) >= 100][:10]
@@ -116,7 +119,8 @@ def check_case(case, acc):
             add("scores-length", f"{len(s)} scores for {len(df)} PSMs")
             return "result"
         feat_cols = {c: df[c].values.astype(float) for c in ("f_key", "f2")}
-        is_feat = [c for c, v in feat_cols.items() if np.array_equal(s, v)]
+        # (a feature read back from a text file may differ from the generated value in the last bit)
+        is_feat = [c for c, v in feat_cols.items() if s.shape == v.shape and np.allclose(s, v, rtol=1e-12, atol=0)]
         passes = [(m.feat_pass, i) for i, m in enumerate(models) if m.feat_pass is not None]
         if not passes:
             return "result_no_featpass"
@@ -233,6 +237,8 @@ def run(ctx):
         if fdr == "eq" and not mixed:
             continue
         cases.append(dict(mults=list(mv), offset=off, enc="pm1", lower=lower, est=est, fmt="pin", override=False, fdr=fdr, mixed=mixed))
+    for mv, off, lower, est in itertools.product(mvs, (0, 1, 2, 3, 4, 5), (False, True), ("constant", "inverted", "linear")):
+        cases.append(dict(mults=list(mv), offset=off, enc="pm1", lower=lower, est=est, fmt="pin", override=False, mixed="balanced"))
     # unsigned integer lower-is-better feature (Parquet) and re-analysis of a re-exported file under the same path
     for mv, off, est in itertools.product(mvs, offsets, EST):
         cases.append(dict(mults=list(mv), offset=off, enc="pm1", lower=True, est=est, fmt="parquet", override=False, uint=True))
